@@ -4,8 +4,8 @@ SPEC = {
  "props": [
   "props/C03.vo"
  ],
- "tie": ["tie/HandleEquiv.vo"],
- "gen_items": ["src/bytes/raw/allocated.rs:slice_unchecked + explicit_clone"],
+ "tie": ["tie/HandleEquiv.vo", "tie/CorePinned.vo"],
+ "gen_items": ["src/bytes/raw/allocated.rs:slice_unchecked + explicit_clone", "src/bytes/raw*.rs + src/smart.rs:pinned bodies"],
  "tieA_required": True,
  "case_libs": [
   "theories/CasesBytes.vo",
